@@ -294,15 +294,59 @@ package state
 //@     invariant [C12] forall c *channel, n *nick :: isa(c, "channel") && c != ch ==> (has(c.nicks, n) <==> old(has(c.nicks, n)))
 //@     invariant [C12] forall k int :: has(dom(st.nicks), k) ==> old(has(dom(st.nicks), k))
 //@ end
+// C12 (attributes): the functional meaning of a user-mode string, as a left fold witnessed by ghost
+// sequences that the string determines completely. sg[k] is the sign in effect before character k
+// (0 = remove, 1 = add; remove before any sign); for each flag letter c, v_c[k] is the flag's value
+// before character k: v_c[0] is the value at entry, character c sets it to the sign in effect, any
+// other character leaves it. The flag's final value is v_c[len(modes)]. Nothing else of any
+// NickMode changes (frame).
+//@ pred signSeq(m string, n int, sg seq) := len(sg) == n + 1 && sg[0] == 0 && (forall k int :: 0 <= k && k < n ==> sg[k+1] == (m[k] == '+' ? 1 : (m[k] == '-' ? 0 : sg[k])))
+//@ pred flagSeq(m string, n int, c int, sg seq, v seq) := len(v) == n + 1 && (forall k int :: 0 <= k && k < n ==> v[k+1] == (m[k] == c ? sg[k] : v[k]))
 //@ func (*nick).parseModes
 //@   property C14, C12
 //@   requires nk != nil
 //@   requires [C12] TI()
 //@   ensures [C12] TI()
 //@   modifies NickMode.Bot, NickMode.Invisible, NickMode.Oper, NickMode.WallOps, NickMode.HiddenHost, NickMode.SSL, $log
+//@   ensures [C12] signSeq(modes, len(modes), sg)
+//@   ensures [C12] forall q *NickMode :: q != nk.modes ==> q.Bot == old(q.Bot) && q.Invisible == old(q.Invisible) && q.Oper == old(q.Oper) && q.WallOps == old(q.WallOps) && q.HiddenHost == old(q.HiddenHost) && q.SSL == old(q.SSL)
+//@   ensures [C12] flagSeq(modes, len(modes), 'B', sg, vBot) && vBot[0] == (old(nk.modes.Bot) ? 1 : 0) && vBot[len(modes)] == (nk.modes.Bot ? 1 : 0)
+//@   ensures [C12] flagSeq(modes, len(modes), 'i', sg, vInvisible) && vInvisible[0] == (old(nk.modes.Invisible) ? 1 : 0) && vInvisible[len(modes)] == (nk.modes.Invisible ? 1 : 0)
+//@   ensures [C12] flagSeq(modes, len(modes), 'o', sg, vOper) && vOper[0] == (old(nk.modes.Oper) ? 1 : 0) && vOper[len(modes)] == (nk.modes.Oper ? 1 : 0)
+//@   ensures [C12] flagSeq(modes, len(modes), 'w', sg, vWallOps) && vWallOps[0] == (old(nk.modes.WallOps) ? 1 : 0) && vWallOps[len(modes)] == (nk.modes.WallOps ? 1 : 0)
+//@   ensures [C12] flagSeq(modes, len(modes), 'x', sg, vHiddenHost) && vHiddenHost[0] == (old(nk.modes.HiddenHost) ? 1 : 0) && vHiddenHost[len(modes)] == (nk.modes.HiddenHost ? 1 : 0)
+//@   ensures [C12] flagSeq(modes, len(modes), 'z', sg, vSSL) && vSSL[0] == (old(nk.modes.SSL) ? 1 : 0) && vSSL[len(modes)] == (nk.modes.SSL ? 1 : 0)
 //@   loop 0:
-//@     invariant true
+//@     ghost sg seq := [0]
+//@     ghost vBot seq := [nk.modes.Bot ? 1 : 0]
+//@     ghost vInvisible seq := [nk.modes.Invisible ? 1 : 0]
+//@     ghost vOper seq := [nk.modes.Oper ? 1 : 0]
+//@     ghost vWallOps seq := [nk.modes.WallOps ? 1 : 0]
+//@     ghost vHiddenHost seq := [nk.modes.HiddenHost ? 1 : 0]
+//@     ghost vSSL seq := [nk.modes.SSL ? 1 : 0]
+//@     invariant 0 <= i && i <= len(modes)
+//@     invariant [C12] signSeq(modes, i, sg) && sg[i] == (modeop ? 1 : 0)
+//@     invariant [C12] forall q *NickMode :: q != nk.modes ==> q.Bot == old(q.Bot) && q.Invisible == old(q.Invisible) && q.Oper == old(q.Oper) && q.WallOps == old(q.WallOps) && q.HiddenHost == old(q.HiddenHost) && q.SSL == old(q.SSL)
+//@     invariant [C12] flagSeq(modes, i, 'B', sg, vBot) && vBot[0] == (old(nk.modes.Bot) ? 1 : 0) && vBot[i] == (nk.modes.Bot ? 1 : 0)
+//@     invariant [C12] flagSeq(modes, i, 'i', sg, vInvisible) && vInvisible[0] == (old(nk.modes.Invisible) ? 1 : 0) && vInvisible[i] == (nk.modes.Invisible ? 1 : 0)
+//@     invariant [C12] flagSeq(modes, i, 'o', sg, vOper) && vOper[0] == (old(nk.modes.Oper) ? 1 : 0) && vOper[i] == (nk.modes.Oper ? 1 : 0)
+//@     invariant [C12] flagSeq(modes, i, 'w', sg, vWallOps) && vWallOps[0] == (old(nk.modes.WallOps) ? 1 : 0) && vWallOps[i] == (nk.modes.WallOps ? 1 : 0)
+//@     invariant [C12] flagSeq(modes, i, 'x', sg, vHiddenHost) && vHiddenHost[0] == (old(nk.modes.HiddenHost) ? 1 : 0) && vHiddenHost[i] == (nk.modes.HiddenHost ? 1 : 0)
+//@     invariant [C12] flagSeq(modes, i, 'z', sg, vSSL) && vSSL[0] == (old(nk.modes.SSL) ? 1 : 0) && vSSL[i] == (nk.modes.SSL ? 1 : 0)
+//@     step sg := sg ++ [modeop ? 1 : 0]
+//@     step vBot := vBot ++ [nk.modes.Bot ? 1 : 0]
+//@     step vInvisible := vInvisible ++ [nk.modes.Invisible ? 1 : 0]
+//@     step vOper := vOper ++ [nk.modes.Oper ? 1 : 0]
+//@     step vWallOps := vWallOps ++ [nk.modes.WallOps ? 1 : 0]
+//@     step vHiddenHost := vHiddenHost ++ [nk.modes.HiddenHost ? 1 : 0]
+//@     step vSSL := vSSL ++ [nk.modes.SSL ? 1 : 0]
 //@ end
+//@ pred privLetter(c int) := c == 'q' || c == 'a' || c == 'o' || c == 'h' || c == 'v'
+//@ pred keyFrom(key string, key0 string, args []string, w int) := w >= -2 && w < len(args) && (w == -1 ==> key == key0) && (w == -2 ==> key == "") && (w >= 0 ==> key == args[w])
+//@ pred chanFlagsSame(q *ChanMode) := q.InviteOnly == old(q.InviteOnly) && q.Moderated == old(q.Moderated) && q.NoExternalMsg == old(q.NoExternalMsg) && q.Private == old(q.Private) && q.Registered == old(q.Registered) && q.Secret == old(q.Secret) && q.ProtectedTopic == old(q.ProtectedTopic) && q.SSLOnly == old(q.SSLOnly) && q.AllSSL == old(q.AllSSL) && q.OperOnly == old(q.OperOnly) && q.Key == old(q.Key) && q.Limit == old(q.Limit)
+// C12 (attributes): the ten argument-less channel flags are the same left fold as the user modes
+// (ghost witnesses sg and w<Flag>, determined by the mode string and the flag's value at entry);
+// key, limit, the privilege letters and the consumption of mode arguments are only framed.
 //@ func (*channel).parseModes
 //@   property C14, C12
 //@   requires ch != nil
@@ -311,8 +355,70 @@ package state
 //@   modifies ChanMode.Private, ChanMode.Secret, ChanMode.ProtectedTopic, ChanMode.NoExternalMsg, ChanMode.Moderated, ChanMode.InviteOnly
 //@   modifies ChanMode.OperOnly, ChanMode.SSLOnly, ChanMode.Registered, ChanMode.AllSSL, ChanMode.Key, ChanMode.Limit
 //@   modifies ChanPrivs.Owner, ChanPrivs.Admin, ChanPrivs.Op, ChanPrivs.HalfOp, ChanPrivs.Voice, $log
+//@   ensures [C12] signSeq(modes, len(modes), sg)
+//@   ensures [C12] forall q *ChanMode :: q != ch.modes ==> chanFlagsSame(q)
+// mode arguments: ac[k] arguments have been consumed before character k. A 'k' or 'l' that adds takes
+// one when one is left; a privilege letter takes one when one is left and it names a nick on the
+// channel; nothing else takes any. kk[k] says where the key comes from before character k: -1 the
+// key at entry, -2 cleared, otherwise the index of the argument.
+//@   ensures [C12] len(ac) == len(modes) + 1 && ac[0] == 0 && (forall k int :: 0 <= k && k < len(modes) ==> 0 <= ac[k] && ac[k] <= len(old(modeargs)) && ac[k+1] == ac[k] + ((ac[k] < len(old(modeargs)) && (((modes[k] == 'k' || modes[k] == 'l') && sg[k] == 1) || (privLetter(modes[k]) && has(ch.lookup, old(modeargs)[ac[k]])))) ? 1 : 0))
+//@   ensures [C12] len(kk) == len(modes) + 1 && kk[0] == -1 && (forall k int :: 0 <= k && k < len(modes) ==> kk[k+1] == (modes[k] == 'k' ? (sg[k] == 1 ? (ac[k] < len(old(modeargs)) ? ac[k] : kk[k]) : -2) : kk[k]))
+//@   ensures [C12] keyFrom(ch.modes.Key, old(ch.modes.Key), old(modeargs), kk[len(modes)])
+//@   ensures [C12] flagSeq(modes, len(modes), 'i', sg, wInviteOnly) && wInviteOnly[0] == (old(ch.modes.InviteOnly) ? 1 : 0) && wInviteOnly[len(modes)] == (ch.modes.InviteOnly ? 1 : 0)
+//@   ensures [C12] flagSeq(modes, len(modes), 'm', sg, wModerated) && wModerated[0] == (old(ch.modes.Moderated) ? 1 : 0) && wModerated[len(modes)] == (ch.modes.Moderated ? 1 : 0)
+//@   ensures [C12] flagSeq(modes, len(modes), 'n', sg, wNoExternalMsg) && wNoExternalMsg[0] == (old(ch.modes.NoExternalMsg) ? 1 : 0) && wNoExternalMsg[len(modes)] == (ch.modes.NoExternalMsg ? 1 : 0)
+//@   ensures [C12] flagSeq(modes, len(modes), 'p', sg, wPrivate) && wPrivate[0] == (old(ch.modes.Private) ? 1 : 0) && wPrivate[len(modes)] == (ch.modes.Private ? 1 : 0)
+//@   ensures [C12] flagSeq(modes, len(modes), 'r', sg, wRegistered) && wRegistered[0] == (old(ch.modes.Registered) ? 1 : 0) && wRegistered[len(modes)] == (ch.modes.Registered ? 1 : 0)
+//@   ensures [C12] flagSeq(modes, len(modes), 's', sg, wSecret) && wSecret[0] == (old(ch.modes.Secret) ? 1 : 0) && wSecret[len(modes)] == (ch.modes.Secret ? 1 : 0)
+//@   ensures [C12] flagSeq(modes, len(modes), 't', sg, wProtectedTopic) && wProtectedTopic[0] == (old(ch.modes.ProtectedTopic) ? 1 : 0) && wProtectedTopic[len(modes)] == (ch.modes.ProtectedTopic ? 1 : 0)
+//@   ensures [C12] flagSeq(modes, len(modes), 'z', sg, wSSLOnly) && wSSLOnly[0] == (old(ch.modes.SSLOnly) ? 1 : 0) && wSSLOnly[len(modes)] == (ch.modes.SSLOnly ? 1 : 0)
+//@   ensures [C12] flagSeq(modes, len(modes), 'Z', sg, wAllSSL) && wAllSSL[0] == (old(ch.modes.AllSSL) ? 1 : 0) && wAllSSL[len(modes)] == (ch.modes.AllSSL ? 1 : 0)
+//@   ensures [C12] flagSeq(modes, len(modes), 'O', sg, wOperOnly) && wOperOnly[0] == (old(ch.modes.OperOnly) ? 1 : 0) && wOperOnly[len(modes)] == (ch.modes.OperOnly ? 1 : 0)
 //@   loop 0:
-//@     invariant true
+//@     ghost sg seq := [0]
+//@     ghost ac seq := [0]
+//@     ghost kk seq := [-1]
+//@     ghost wInviteOnly seq := [ch.modes.InviteOnly ? 1 : 0]
+//@     ghost wModerated seq := [ch.modes.Moderated ? 1 : 0]
+//@     ghost wNoExternalMsg seq := [ch.modes.NoExternalMsg ? 1 : 0]
+//@     ghost wPrivate seq := [ch.modes.Private ? 1 : 0]
+//@     ghost wRegistered seq := [ch.modes.Registered ? 1 : 0]
+//@     ghost wSecret seq := [ch.modes.Secret ? 1 : 0]
+//@     ghost wProtectedTopic seq := [ch.modes.ProtectedTopic ? 1 : 0]
+//@     ghost wSSLOnly seq := [ch.modes.SSLOnly ? 1 : 0]
+//@     ghost wAllSSL seq := [ch.modes.AllSSL ? 1 : 0]
+//@     ghost wOperOnly seq := [ch.modes.OperOnly ? 1 : 0]
+//@     invariant 0 <= i && i <= len(modes)
+//@     invariant [C12] signSeq(modes, i, sg) && sg[i] == (modeop ? 1 : 0)
+//@     invariant [C12] forall q *ChanMode :: q != ch.modes ==> chanFlagsSame(q)
+//@     invariant [C12] ch.lookup == old(ch.lookup) && ch.modes == old(ch.modes) && dom(ch.lookup) === old(dom(ch.lookup))
+//@     invariant [C12] len(ac) == i + 1 && ac[0] == 0 && 0 <= ac[i] && ac[i] <= len(old(modeargs)) && (forall k int :: 0 <= k && k < i ==> 0 <= ac[k] && ac[k] <= len(old(modeargs)) && ac[k+1] == ac[k] + ((ac[k] < len(old(modeargs)) && (((modes[k] == 'k' || modes[k] == 'l') && sg[k] == 1) || (privLetter(modes[k]) && has(ch.lookup, old(modeargs)[ac[k]])))) ? 1 : 0))
+//@     invariant [C12] len(modeargs) == len(old(modeargs)) - ac[i] && (forall j int :: 0 <= j && j < len(modeargs) ==> modeargs[j] === old(modeargs)[ac[i] + j])
+//@     invariant [C12] len(kk) == i + 1 && kk[0] == -1 && (forall k int :: 0 <= k && k < i ==> kk[k+1] == (modes[k] == 'k' ? (sg[k] == 1 ? (ac[k] < len(old(modeargs)) ? ac[k] : kk[k]) : -2) : kk[k]))
+//@     invariant [C12] keyFrom(ch.modes.Key, old(ch.modes.Key), old(modeargs), kk[i])
+//@     invariant [C12] flagSeq(modes, i, 'i', sg, wInviteOnly) && wInviteOnly[0] == (old(ch.modes.InviteOnly) ? 1 : 0) && wInviteOnly[i] == (ch.modes.InviteOnly ? 1 : 0)
+//@     invariant [C12] flagSeq(modes, i, 'm', sg, wModerated) && wModerated[0] == (old(ch.modes.Moderated) ? 1 : 0) && wModerated[i] == (ch.modes.Moderated ? 1 : 0)
+//@     invariant [C12] flagSeq(modes, i, 'n', sg, wNoExternalMsg) && wNoExternalMsg[0] == (old(ch.modes.NoExternalMsg) ? 1 : 0) && wNoExternalMsg[i] == (ch.modes.NoExternalMsg ? 1 : 0)
+//@     invariant [C12] flagSeq(modes, i, 'p', sg, wPrivate) && wPrivate[0] == (old(ch.modes.Private) ? 1 : 0) && wPrivate[i] == (ch.modes.Private ? 1 : 0)
+//@     invariant [C12] flagSeq(modes, i, 'r', sg, wRegistered) && wRegistered[0] == (old(ch.modes.Registered) ? 1 : 0) && wRegistered[i] == (ch.modes.Registered ? 1 : 0)
+//@     invariant [C12] flagSeq(modes, i, 's', sg, wSecret) && wSecret[0] == (old(ch.modes.Secret) ? 1 : 0) && wSecret[i] == (ch.modes.Secret ? 1 : 0)
+//@     invariant [C12] flagSeq(modes, i, 't', sg, wProtectedTopic) && wProtectedTopic[0] == (old(ch.modes.ProtectedTopic) ? 1 : 0) && wProtectedTopic[i] == (ch.modes.ProtectedTopic ? 1 : 0)
+//@     invariant [C12] flagSeq(modes, i, 'z', sg, wSSLOnly) && wSSLOnly[0] == (old(ch.modes.SSLOnly) ? 1 : 0) && wSSLOnly[i] == (ch.modes.SSLOnly ? 1 : 0)
+//@     invariant [C12] flagSeq(modes, i, 'Z', sg, wAllSSL) && wAllSSL[0] == (old(ch.modes.AllSSL) ? 1 : 0) && wAllSSL[i] == (ch.modes.AllSSL ? 1 : 0)
+//@     invariant [C12] flagSeq(modes, i, 'O', sg, wOperOnly) && wOperOnly[0] == (old(ch.modes.OperOnly) ? 1 : 0) && wOperOnly[i] == (ch.modes.OperOnly ? 1 : 0)
+//@     step sg := sg ++ [modeop ? 1 : 0]
+//@     step ac := ac ++ [len(old(modeargs)) - len(modeargs)]
+//@     step kk := kk ++ [modes[i-1] == 'k' ? (sg[i-1] == 1 ? (ac[i-1] < len(old(modeargs)) ? ac[i-1] : kk[i-1]) : -2) : kk[i-1]]
+//@     step wInviteOnly := wInviteOnly ++ [ch.modes.InviteOnly ? 1 : 0]
+//@     step wModerated := wModerated ++ [ch.modes.Moderated ? 1 : 0]
+//@     step wNoExternalMsg := wNoExternalMsg ++ [ch.modes.NoExternalMsg ? 1 : 0]
+//@     step wPrivate := wPrivate ++ [ch.modes.Private ? 1 : 0]
+//@     step wRegistered := wRegistered ++ [ch.modes.Registered ? 1 : 0]
+//@     step wSecret := wSecret ++ [ch.modes.Secret ? 1 : 0]
+//@     step wProtectedTopic := wProtectedTopic ++ [ch.modes.ProtectedTopic ? 1 : 0]
+//@     step wSSLOnly := wSSLOnly ++ [ch.modes.SSLOnly ? 1 : 0]
+//@     step wAllSSL := wAllSSL ++ [ch.modes.AllSSL ? 1 : 0]
+//@     step wOperOnly := wOperOnly ++ [ch.modes.OperOnly ? 1 : 0]
 //@ end
 //@ func (*stateTracker).Wipe
 //@   property C14, C12
@@ -437,6 +543,22 @@ package state
 //@   ensures [C12] !has(st.nicks, n) ==> result == nil
 //@   ensures [C12] has(st.nicks, n) ==> result != nil && result.Nick == n && snapN(result, st.nicks[n])
 //@   ensures [C12] trkUnchanged(st)
+// C12 (attributes): the modes in the returned snapshot are the fold of the mode string over the
+// nick's previous modes (ghost witnesses of parseModes, which the string determines)
+//@   bind sg seq := ghost state.(*nick).parseModes 1 sg
+//@   bind vBot seq := ghost state.(*nick).parseModes 1 vBot
+//@   bind vInvisible seq := ghost state.(*nick).parseModes 1 vInvisible
+//@   bind vOper seq := ghost state.(*nick).parseModes 1 vOper
+//@   bind vWallOps seq := ghost state.(*nick).parseModes 1 vWallOps
+//@   bind vHiddenHost seq := ghost state.(*nick).parseModes 1 vHiddenHost
+//@   bind vSSL seq := ghost state.(*nick).parseModes 1 vSSL
+//@   ensures [C12] has(st.nicks, n) ==> signSeq(modes, len(modes), sg)
+//@   ensures [C12] has(st.nicks, n) ==> flagSeq(modes, len(modes), 'B', sg, vBot) && vBot[0] == (old(st.nicks[n].modes.Bot) ? 1 : 0) && vBot[len(modes)] == (result.Modes.Bot ? 1 : 0)
+//@   ensures [C12] has(st.nicks, n) ==> flagSeq(modes, len(modes), 'i', sg, vInvisible) && vInvisible[0] == (old(st.nicks[n].modes.Invisible) ? 1 : 0) && vInvisible[len(modes)] == (result.Modes.Invisible ? 1 : 0)
+//@   ensures [C12] has(st.nicks, n) ==> flagSeq(modes, len(modes), 'o', sg, vOper) && vOper[0] == (old(st.nicks[n].modes.Oper) ? 1 : 0) && vOper[len(modes)] == (result.Modes.Oper ? 1 : 0)
+//@   ensures [C12] has(st.nicks, n) ==> flagSeq(modes, len(modes), 'w', sg, vWallOps) && vWallOps[0] == (old(st.nicks[n].modes.WallOps) ? 1 : 0) && vWallOps[len(modes)] == (result.Modes.WallOps ? 1 : 0)
+//@   ensures [C12] has(st.nicks, n) ==> flagSeq(modes, len(modes), 'x', sg, vHiddenHost) && vHiddenHost[0] == (old(st.nicks[n].modes.HiddenHost) ? 1 : 0) && vHiddenHost[len(modes)] == (result.Modes.HiddenHost ? 1 : 0)
+//@   ensures [C12] has(st.nicks, n) ==> flagSeq(modes, len(modes), 'z', sg, vSSL) && vSSL[0] == (old(st.nicks[n].modes.SSL) ? 1 : 0) && vSSL[len(modes)] == (result.Modes.SSL ? 1 : 0)
 //@ end
 //@ func (*stateTracker).NewChannel
 //@   property C14, C12
@@ -514,6 +636,35 @@ package state
 //@   ensures [C12] !has(st.chans, c) ==> result == nil
 //@   ensures [C12] has(st.chans, c) ==> result != nil && result.Name == c && snapC(result, st.chans[c])
 //@   ensures [C12] trkUnchanged(st)
+// C12 (attributes): the flags and the key in the returned snapshot are the fold of the mode string
+// and its arguments over the channel's previous modes (ghost witnesses of channel.parseModes)
+//@   bind sg seq := ghost state.(*channel).parseModes 1 sg
+//@   bind ac seq := ghost state.(*channel).parseModes 1 ac
+//@   bind kk seq := ghost state.(*channel).parseModes 1 kk
+//@   bind wInviteOnly seq := ghost state.(*channel).parseModes 1 wInviteOnly
+//@   bind wModerated seq := ghost state.(*channel).parseModes 1 wModerated
+//@   bind wNoExternalMsg seq := ghost state.(*channel).parseModes 1 wNoExternalMsg
+//@   bind wPrivate seq := ghost state.(*channel).parseModes 1 wPrivate
+//@   bind wRegistered seq := ghost state.(*channel).parseModes 1 wRegistered
+//@   bind wSecret seq := ghost state.(*channel).parseModes 1 wSecret
+//@   bind wProtectedTopic seq := ghost state.(*channel).parseModes 1 wProtectedTopic
+//@   bind wSSLOnly seq := ghost state.(*channel).parseModes 1 wSSLOnly
+//@   bind wAllSSL seq := ghost state.(*channel).parseModes 1 wAllSSL
+//@   bind wOperOnly seq := ghost state.(*channel).parseModes 1 wOperOnly
+//@   ensures [C12] has(st.chans, c) ==> signSeq(modes, len(modes), sg)
+//@   ensures [C12] has(st.chans, c) ==> flagSeq(modes, len(modes), 'i', sg, wInviteOnly) && wInviteOnly[0] == (old(st.chans[c].modes.InviteOnly) ? 1 : 0) && wInviteOnly[len(modes)] == (result.Modes.InviteOnly ? 1 : 0)
+//@   ensures [C12] has(st.chans, c) ==> flagSeq(modes, len(modes), 'm', sg, wModerated) && wModerated[0] == (old(st.chans[c].modes.Moderated) ? 1 : 0) && wModerated[len(modes)] == (result.Modes.Moderated ? 1 : 0)
+//@   ensures [C12] has(st.chans, c) ==> flagSeq(modes, len(modes), 'n', sg, wNoExternalMsg) && wNoExternalMsg[0] == (old(st.chans[c].modes.NoExternalMsg) ? 1 : 0) && wNoExternalMsg[len(modes)] == (result.Modes.NoExternalMsg ? 1 : 0)
+//@   ensures [C12] has(st.chans, c) ==> flagSeq(modes, len(modes), 'p', sg, wPrivate) && wPrivate[0] == (old(st.chans[c].modes.Private) ? 1 : 0) && wPrivate[len(modes)] == (result.Modes.Private ? 1 : 0)
+//@   ensures [C12] has(st.chans, c) ==> flagSeq(modes, len(modes), 'r', sg, wRegistered) && wRegistered[0] == (old(st.chans[c].modes.Registered) ? 1 : 0) && wRegistered[len(modes)] == (result.Modes.Registered ? 1 : 0)
+//@   ensures [C12] has(st.chans, c) ==> flagSeq(modes, len(modes), 's', sg, wSecret) && wSecret[0] == (old(st.chans[c].modes.Secret) ? 1 : 0) && wSecret[len(modes)] == (result.Modes.Secret ? 1 : 0)
+//@   ensures [C12] has(st.chans, c) ==> flagSeq(modes, len(modes), 't', sg, wProtectedTopic) && wProtectedTopic[0] == (old(st.chans[c].modes.ProtectedTopic) ? 1 : 0) && wProtectedTopic[len(modes)] == (result.Modes.ProtectedTopic ? 1 : 0)
+//@   ensures [C12] has(st.chans, c) ==> flagSeq(modes, len(modes), 'z', sg, wSSLOnly) && wSSLOnly[0] == (old(st.chans[c].modes.SSLOnly) ? 1 : 0) && wSSLOnly[len(modes)] == (result.Modes.SSLOnly ? 1 : 0)
+//@   ensures [C12] has(st.chans, c) ==> flagSeq(modes, len(modes), 'Z', sg, wAllSSL) && wAllSSL[0] == (old(st.chans[c].modes.AllSSL) ? 1 : 0) && wAllSSL[len(modes)] == (result.Modes.AllSSL ? 1 : 0)
+//@   ensures [C12] has(st.chans, c) ==> flagSeq(modes, len(modes), 'O', sg, wOperOnly) && wOperOnly[0] == (old(st.chans[c].modes.OperOnly) ? 1 : 0) && wOperOnly[len(modes)] == (result.Modes.OperOnly ? 1 : 0)
+//@   ensures [C12] has(st.chans, c) ==> len(ac) == len(modes) + 1 && ac[0] == 0 && (forall k int :: 0 <= k && k < len(modes) ==> 0 <= ac[k] && ac[k] <= len(args) && ac[k+1] == ac[k] + ((ac[k] < len(args) && (((modes[k] == 'k' || modes[k] == 'l') && sg[k] == 1) || (privLetter(modes[k]) && has(st.chans[c].lookup, args[ac[k]])))) ? 1 : 0))
+//@   ensures [C12] has(st.chans, c) ==> len(kk) == len(modes) + 1 && kk[0] == -1 && (forall k int :: 0 <= k && k < len(modes) ==> kk[k+1] == (modes[k] == 'k' ? (sg[k] == 1 ? (ac[k] < len(args) ? ac[k] : kk[k]) : -2) : kk[k]))
+//@   ensures [C12] has(st.chans, c) ==> keyFrom(result.Modes.Key, old(st.chans[c].modes.Key), args, kk[len(modes)])
 //@ end
 //@ func (*stateTracker).Me
 //@   property C14, C12
@@ -592,9 +743,9 @@ package state
 
 // Heap-wide type invariant: every nick / channel object ever allocated has its
 // maps and mode struct, and the membership maps hold non-nil keys and values.
-//@ pred TI() := (forall n *nick :: isa(n, "nick") ==> n.chans != nil && n.lookup != nil && n.modes != nil && allocated(n.chans) && allocated(n.lookup)
+//@ pred TI() := (forall n *nick :: isa(n, "nick") ==> n.chans != nil && n.lookup != nil && n.modes != nil && allocated(n.modes) && allocated(n.chans) && allocated(n.lookup)
 //@        && (forall c *channel :: has(n.chans, c) ==> c != nil && n.chans[c] != nil && allocated(n.chans[c])))
-//@     && (forall c *channel :: isa(c, "channel") ==> c.nicks != nil && c.lookup != nil && c.modes != nil && allocated(c.nicks) && allocated(c.lookup)
+//@     && (forall c *channel :: isa(c, "channel") ==> c.nicks != nil && c.lookup != nil && c.modes != nil && allocated(c.modes) && allocated(c.nicks) && allocated(c.lookup)
 //@        && (forall n *nick :: has(c.nicks, n) ==> n != nil && c.nicks[n] != nil && allocated(c.nicks[n])))
 
 // Ownership: no two nick / channel objects share a map.
